@@ -15,6 +15,7 @@ ASSUME = [
     "stub: std::rt::thread_cleanup = no-op; alloc::fmt::format returns an empty String (error text not checked, Err/Ok is)",
     "feature set std,sync,biased,imbl,rooted-instructions; values are mem::forgotten",
     "script integers are IntV (machine word); BigNum sources are covered only through u64/usize/i64 'into' directions",
+    "lend (E3i): only the three facts named in lib/p_lend.py are decided, per wrapper closure, as path queries (branches other than argument-count tests are free); the run-time checks that USE the flags (as_mut_ref_from_ref / as_ref_from_ref), the nursery's clean-up at the end of the lending call and clones of a derived reference are not encoded -- the native replay exercises them",
 ]
 
 INTS = ["i8", "u8", "i16", "u16", "i32", "u32", "i64", "u64", "isize", "usize"]
@@ -74,6 +75,7 @@ def arity_obligations(run, wsdir_for_mir=None):
     run.samples.append({"engine": "mir-smt", "wrappers": len(wrappers), "query": "exists len1 != len2 both reaching <FN as Fn<..>>::call", "unsat": n_unsat})
     common = dict(engine="mir-smt/z3", wall_s=time.time() - t0, solver_s=round(solver_s, 2), solver_checks=len(wrappers))
     mapping_obligation(run, wrappers, wsdir, root, env)
+    lend_obligation(run, out, wsdir, root, env)
     if errs:
         run.ob("arity:wrappers", "inconclusive", reason="; ".join(errs[:3]), **common)
         return
@@ -157,6 +159,54 @@ def mapping_obligation(run, wrappers, wsdir, root, env):
     run.ob(oid, "fail", note=m.group(1)[:200], **common)
 
 
+def lend_obligation(run, mir_path, wsdir, root, env):
+    """E3i: the wrappers that hand out a reference derived from a lent reference mark the parent as borrowed, park the
+    owner of the derived pointer in the nursery, and mark the parent the reference was derived from (lib/p_lend.py)."""
+    import os, json, shutil, subprocess, re, time
+    import ws, p_lend
+    oid = "lend:derived-reference-protocol"
+    t0 = time.time()
+    try:
+        r = p_lend.analyse(open(mir_path).read())
+    except Exception as ex:
+        run.ob(oid, "inconclusive", reason="extraction failed: %s" % str(ex)[-300:], engine="mir-smt")
+        return
+    common = dict(engine="mir-smt/z3", wall_s=round(time.time() - t0, 1), solver_s=round(r["solver_s"], 2), solver_checks=r["queries"])
+    run.functions.append("steel_vm::register_fn: %d wrapper closures that hand out a derived reference (ReadOnlyBorrowedObject::new / BorrowedObject::with_parent_flag), control-flow paths (MIR)" % len(r["wrappers"]))
+    run.samples.append({"engine": "mir-smt", "query": "exists an acyclic path (and argument count) from the wrapper's entry to the hand-out of a derived reference that avoids "
+                        "(marked) the increment / store(true) on the parent's borrow flag, (owned) OpaqueReferenceNursery::allocate; (parent) flag taken from another argument than the receiver",
+                        "wrappers": [(w["where"], w["kind"], {k: v.get("res", v) for k, v in w["facts"].items()}) for w in r["wrappers"]]})
+    if r["errors"] or len(r["wrappers"]) < 4:
+        run.ob(oid, "inconclusive", reason="; ".join(r["errors"][:3]) or "only %d derived-reference wrappers recognised" % len(r["wrappers"]), **common)
+        return
+    if not r["bad"]:
+        run.ob(oid, "pass", nonvacuous=True, note="%d wrappers x 3 facts: no path to the hand-out without them" % len(r["wrappers"]), **common)
+        return
+    b = r["bad"][0]
+    what = "%s (%s reference): a path to the hand-out of the derived reference %s" % (
+        b["where"], "read-only" if b["kind"] == "ro" else "mutable",
+        {"marked": "does not mark the parent as borrowed", "owned": "does not park the owner of the derived pointer in the nursery",
+         "parent": "marks the flag of argument %s while the reference is derived from argument %s" % (b.get("flag_of_argument"), b.get("receiver_argument"))}[b["fact"]])
+    try:
+        shutil.copy(os.path.join(ws.VERIF, "harness", "arity_replay.rs"), os.path.join(wsdir, "crates", "steel-core", "tests", "verif_arity_replay.rs"))
+        p = subprocess.run(["cargo", "test", "--offline", "-p", "steel-core", "--no-default-features", "--features", ws.FEATURES,
+                            "--test", "verif_arity_replay", "--target-dir", os.path.join(root, "tn"), "--", "lend_replay", "--exact", "--nocapture"],
+                           cwd=wsdir, env=env, capture_output=True, text=True, timeout=2400)
+        m = re.search(r"OBSERVED: (.*)", p.stdout + p.stderr)
+    except Exception as ex:
+        run.ob(oid, "inconclusive", reason="replay failed: %s" % str(ex)[-300:], **common)
+        return
+    if not m:
+        run.ob(oid, "inconclusive", reason="solver: %s; not reproduced through a lending call" % what, **common)
+        return
+    d = os.path.join(ws.VERIF, "replays", run.pid)
+    os.makedirs(d, exist_ok=True)
+    path = os.path.join(d, "lend.json")
+    json.dump({"property": run.pid, "kind": "lend", "what": what, "bad": r["bad"][:4], "observed": m.group(1), "how": "./check C20 --replay <this file>"}, open(path, "w"), indent=1)
+    run.violation("lend:%s-%s" % (b["fact"], b["kind"]), "%s; natively: %s" % (what, m.group(1)[:300]), path)
+    run.ob(oid, "fail", note=m.group(1)[:200], **common)
+
+
 def check(pid, tier, seed):
     run = p_kani.check(pid, tier, seed, SPECS, plan(tier), FUNCS,
                        {"scalars": "full width of each type", "unwind": 6, "arity": "all register_fn wrapper closures in the MIR dump, argument count 64-bit"}, ASSUME, RULE, slots=4)
@@ -175,6 +225,20 @@ def replay(pid, path):
         p = subprocess.run(["cargo", "test", "--offline", "-p", "steel-core", "--no-default-features", "--features", ws.FEATURES,
                             "--test", "verif_arity_replay", "--target-dir", os.path.join(root, "tn"), "--", "mapping_replay", "--exact", "--nocapture"],
                            cwd=wsdir, env=dict(os.environ, VERIF_MAP_N=str(payload["n"])), capture_output=True, text=True)
+        m = re.search(r"OBSERVED: (.*)", p.stdout + p.stderr)
+        print("observed:", m.group(1) if m else "not reproduced")
+        if m:
+            print("VIOLATION property=%s replay=%s" % (pid, path))
+            return 1
+        return 0
+    if payload.get("kind") == "lend":
+        import os, shutil, subprocess, re, ws
+        wsdir = ws.prepare("c20replay", [])
+        root = os.path.dirname(wsdir)
+        shutil.copy(os.path.join(ws.VERIF, "harness", "arity_replay.rs"), os.path.join(wsdir, "crates", "steel-core", "tests", "verif_arity_replay.rs"))
+        p = subprocess.run(["cargo", "test", "--offline", "-p", "steel-core", "--no-default-features", "--features", ws.FEATURES,
+                            "--test", "verif_arity_replay", "--target-dir", os.path.join(root, "tn"), "--", "lend_replay", "--exact", "--nocapture"],
+                           cwd=wsdir, env=dict(os.environ, CARGO_NET_OFFLINE="true"), capture_output=True, text=True)
         m = re.search(r"OBSERVED: (.*)", p.stdout + p.stderr)
         print("observed:", m.group(1) if m else "not reproduced")
         if m:
